@@ -120,10 +120,8 @@ pub use ohkami_lib::stream::{self, Stream, StreamExt};
 /// ```
 pub fn iter_cookies(raw: &str) -> impl Iterator<Item = (&str, &str)> {
     raw.split("; ").filter_map(|key_value| {
-        let mut key_value = key_value.split('=');
-        let key   = key_value.next()?;
-        let value = key_value.next()?;
-        key_value.next().is_none().then_some((key, value))
+        /* `=` is a valid cookie-octet: only the first one separates name and value */
+        key_value.split_once('=')
     })
 }
 
